@@ -142,18 +142,63 @@ class Prover:
         pending = [ob for ob in pending if ob.status != 'unsat']
         # stage 2: direct, short budget
         # stage 1b: cone-of-influence pass (hypotheses unrelated to the goal dropped: a weakening, only 'unsat' is kept)
-        if len(pending) > 40:
+        if pending:
+            # stage 1a: identities need no hypotheses at all
             tasks = []
             for ob in pending:
                 try:
-                    hy, gl = smt.expand(ob, relevant=True)
-                    tasks.append(Task(ob, 'direct-relevant', hy, gl, FAST))
+                    if not isinstance(ob.goal, QForall): tasks.append(Task(ob, 'goal-alone', [], ob.goal, [('z3-5.1.0', 3)]))
                 except Exception:
                     pass
             run_tasks(tasks)
             for t in tasks:
                 if t.status == 'unsat':
                     t.ob.status = 'unsat'; t.ob.backend = t.backend; t.ob.smt2 = t.smt2
+                    t.ob.steps.append(self.rec(t.ob, t))
+            pending = [ob for ob in pending if ob.status != 'unsat']
+            tasks = []
+            for ob in pending:
+                try:
+                    hy, gl = smt.expand(ob, relevant=True)
+                    tasks.append(Task(ob, 'direct-relevant', hy, gl, FAST + [('z3-4.8.12', 10)]))
+                except Exception:
+                    pass
+            run_tasks(tasks)
+            for t in tasks:
+                if t.status == 'unsat':
+                    t.ob.status = 'unsat'; t.ob.backend = t.backend; t.ob.smt2 = t.smt2
+                    t.ob.steps.append(self.rec(t.ob, t))
+            pending = [ob for ob in pending if ob.status != 'unsat']
+            # hypotheses that speak only about symbols of the goal (sign facts, ranges): small non-linear problems
+            tasks = []
+            for ob in pending:
+                try:
+                    if isinstance(ob.goal, QForall): continue
+                    gs = smt.const_ids(ob.goal, smt._cid_memo)
+                    hy0, _ = smt.expand(ob, relevant=True)
+                    hy = [h for h in hy0 if is_z3(h) and smt.const_ids(h, smt._cid_memo) and smt.const_ids(h, smt._cid_memo) <= gs]
+                    tasks.append(Task(ob, 'goal-closed-hypotheses', hy, ob.goal, [('z3-5.1.0', 5), ('cvc5-1.0.3', 5), ('z3-4.8.12', 5)]))
+                except Exception:
+                    pass
+            run_tasks(tasks)
+            for t in tasks:
+                if t.status == 'unsat':
+                    t.ob.status = 'unsat'; t.ob.backend = t.backend; t.ob.smt2 = t.smt2
+                    t.ob.steps.append(self.rec(t.ob, t))
+            pending = [ob for ob in pending if ob.status != 'unsat']
+            # same, with non-linear products replaced by uninterpreted functions (frame / bookkeeping goals need no algebra)
+            tasks = []
+            for ob in pending:
+                try:
+                    hy, gl = smt.expand(ob, relevant=True)
+                    ab = smt.abstract_nl(hy + [gl])
+                    tasks.append(Task(ob, 'relevant-nl-abstracted', ab[:-1], ab[-1], FAST + [('z3-4.8.12', 10)]))
+                except Exception:
+                    pass
+            run_tasks(tasks)
+            for t in tasks:
+                if t.status == 'unsat':
+                    t.ob.status = 'unsat'; t.ob.backend = t.backend + '+nl-abstraction'; t.ob.smt2 = t.smt2
                     t.ob.steps.append(self.rec(t.ob, t))
             pending = [ob for ob in pending if ob.status != 'unsat']
         for ob in pending:
